@@ -571,6 +571,13 @@ def bounded(tier, seed):
     for (rn, rh), (sn, sh), v in itertools.product(REQ_HEADER_SETS.items(), RESP_HEADER_SETS.items(), versions):
         f = build_flow("GET", URLS[1], v, rh, b"", 200, sh + [("Content-Length", "2")], b"ok")
         run(("B", rn, sn, v), _describe(family="B", request_headers=rn, response_headers=sn, version=v), f)
+    if tier == "thorough":   # header sets x methods x URLs x a coded / binary response body
+        for (rn, rh), (sn, sh), v, m, u, body in itertools.product(REQ_HEADER_SETS.items(), RESP_HEADER_SETS.items(), versions, ("GET", "POST", "PATCH"), URLS[1:4],
+                                                                  (("text", "text/plain; charset=utf-8", "Grüße ✓".encode()), ("binary", "image/png", BINARIES["png"]))):
+            rb = b"x=1&y=2" if m != "GET" else b""
+            rh2 = rh + ([("Content-Type", "application/x-www-form-urlencoded"), ("Content-Length", str(len(rb)))] if rb else [])
+            f = build_flow(m, u, v, rh2, rb, 200, sh + [("Content-Type", body[1]), ("Content-Length", str(len(body[2])))], body[2])
+            run(("B+", rn, sn, v, m, u, body[0]), _describe(family="B+", request_headers=rn, response_headers=sn, version=v, method=m, url=u, body=body[0]), f)
     for name, raw in (("latin1_value", b"caf\xe9"), ("bad_utf8_value", b"\xff\xfe")):
         f = build_flow("GET", URLS[1], "HTTP/1.1", [], b"", 200, [(b"X-Raw", raw), (b"Content-Length", b"2")], b"ok")
         run(("B", name), _describe(family="B", response_header_bytes=raw), f, tags=("header_bytes_not_utf8",))
